@@ -75,6 +75,17 @@ def parse_kv(s):
     return out
 
 
+def short_label(impl, name):
+    """'impl<'a> ExecutionEngine<'a>' + 'execute' -> 'ExecutionEngine::execute'; 'impl Iterator for X' -> 'X::next'; '-' -> name"""
+    if impl == '-':
+        return name
+    t = re.sub(r'^impl\s*(<[^>]*>)?\s*', '', impl.strip())
+    if ' for ' in t:
+        t = t.split(' for ', 1)[1]
+    t = re.sub(r'<.*$', '', t).strip()
+    return '%s::%s' % (t, name)
+
+
 def strip_attrs(text):
     lines = []
     for ln in text.split('\n'):
@@ -176,7 +187,7 @@ class Expander:
             hs, bo, bc = s.find_fn(kv.get('impl', '-'), kv['name'])
         except ScanError as e:
             raise AnchorLost(str(e))
-        label = kv.get('label') or ('%s::%s' % (kv.get('impl', '-'), kv['name']))
+        label = kv.get('label') or short_label(kv.get('impl', '-'), kv['name'])
         sig = s.text[hs:bo].strip()
         body_s, body_e = bo, bc + 1          # [body_s, body_e) includes braces
         prefix_text = ''
@@ -329,7 +340,9 @@ class Expander:
                         hit = idx_ + 1
                         break
                 if hit is None:
-                    raise AnchorLost('%s: no closure matches /%s/' % (label, rx_))
+                    # the closure is not there (any more): nothing to annotate
+                    self.local_rewrites.append({'fn': label, 'regex': rx_, 'replacement': '<closure contract: no closure matches>', 'count': 0})
+                    continue
                 clo_secs[hit] = v_
         if clo_secs:
             tmp = Source('<body>', body_text)
